@@ -62,14 +62,34 @@ def ConstOk (w0 : World) (lo : Nat) : Option Nat → Prop
   | none => True
   | some c => lo ≤ c ∨ ConstTarget w0 c
 
+/-- every sharding spec of the node targets one of the node's own inputs or outputs -/
+def DevLocal (n : NodeS) : Prop :=
+  ∀ c ∈ n.dev, ∀ sp ∈ c.specs, ∀ v, sp.value = some v → some v ∈ n.inputs ∨ v ∈ n.outputs
+
+theorem devLocalB_spec {n : NodeS} (h : devLocalB n = true) : DevLocal n := by
+  intro c hc sp hsp v hv
+  unfold devLocalB at h
+  rw [List.all_eq_true] at h
+  have h1 := h c hc
+  rw [List.all_eq_true] at h1
+  have h2 := h1 sp hsp
+  rw [hv] at h2
+  simpa using h2
+
+theorem devLocalW_spec {w : World} (h : devLocalW w = true) {i : Nat} {n : NodeS}
+    (hi : w[i]? = some (.node n)) : DevLocal n := by
+  unfold devLocalW at h
+  rw [List.all_eq_true] at h
+  exact devLocalB_spec (h _ (List.mem_of_getElem? hi))
+
 /-- the ownership pointers of a new cell stay inside the new part `[lo, hi)` of the heap; node
     inputs too unless outer-scope values are allowed -/
 def CellOk (w0 : World) (lo hi : Nat) (allow : Bool) : Cell → Prop
   | .val v => OptIn lo hi v.type ∧ OptIn lo hi v.shape ∧ In lo hi v.props ∧ In lo hi v.mstore ∧
-      OptIn lo hi v.graph ∧ OptIn lo hi v.producer ∧ ConstOk w0 lo v.const
+      OptIn lo hi v.graph ∧ OptIn lo hi v.producer ∧ ConstOk w0 lo v.const ∧ (∀ u ∈ v.uses, lo ≤ u.1)
   | .node n => (∀ v ∈ n.outputs, In lo hi v) ∧ In lo hi n.props ∧ In lo hi n.mstore ∧
       OptIn lo hi n.graph ∧ (∀ ka ∈ n.attrs, In lo hi ka.2 ∨ SharedAttr w0 ka.2) ∧
-      (allow = false → ∀ v, some v ∈ n.inputs → In lo hi v)
+      (allow = false → ∀ v, some v ∈ n.inputs → In lo hi v) ∧ (devLocalW w0 = true → DevLocal n)
   | .graph g => (∀ v ∈ g.inputs, In lo hi v) ∧ (∀ v ∈ g.outputs, In lo hi v) ∧
       (∀ e ∈ g.inits, In lo hi e.2) ∧ (∀ v ∈ g.nodes, In lo hi v) ∧ In lo hi g.props ∧
       In lo hi g.mstore
@@ -92,8 +112,8 @@ theorem CellOk.mono {w0 lo hi hi' allow c} (h : CellOk w0 lo hi allow c) (hh : h
     obtain ⟨a, b, c, d, e, f, k⟩ := h
     exact ⟨a.mono hh, b.mono hh, c.mono hh, d.mono hh, e.mono hh, f.mono hh, k⟩
   | node n =>
-    obtain ⟨a, b, c, d, e, f⟩ := h
-    refine ⟨fun v hv => (a v hv).mono hh, b.mono hh, c.mono hh, d.mono hh, ?_, fun ha v hv => (f ha v hv).mono hh⟩
+    obtain ⟨a, b, c, d, e, f, f2⟩ := h
+    refine ⟨fun v hv => (a v hv).mono hh, b.mono hh, c.mono hh, d.mono hh, ?_, fun ha v hv => (f ha v hv).mono hh, f2⟩
     intro ka hka
     rcases e ka hka with h | h
     · exact .inl (h.mono hh)
@@ -433,7 +453,7 @@ theorem constOk_of_read {s : St} {v : Nat} {vs : ValueS} (hI : Inv w0 allow s)
         right
         refine ⟨v, v0, hc0, ?_⟩
         rw [← this.2.2.2.2.2.2.2.2.2.2.1]; exact hc
-  · obtain ⟨_, _, _, _, _, _, k⟩ := hI.cells v _ hge h
+  · obtain ⟨_, _, _, _, _, _, k, _⟩ := hI.cells v _ hge h
     exact k
 
 theorem cloneOrGetValue_good {s : St} (v : Nat) (hI : Inv w0 allow s) :
@@ -455,7 +475,7 @@ theorem cloneOrGetValue_good {s : St} (v : Nat) (hI : Inv w0 allow s) :
         (.val { name := vs.name, doc := vs.doc, type := ty, shape := sh, const := vs.const,
                 props := pr, mstore := me }) :=
       ⟨OptIn.mono hty (by omega), OptIn.mono hsh (by omega), In.mono hpr (by omega),
-        In.mono hme (by omega), trivial, trivial, hconst⟩
+        In.mono hme (by omega), trivial, trivial, hconst, fun u hu => by cases hu⟩
     mbind (GoodAt.allocNew hI6 hc) with v' s7 hI7 hl7 hv'
     mbind (GoodAt.vmSet hI7 hv') with u s8 hI8 hl8 hq8
     exact GoodAt.pure hI8 (by rw [NewId, hq8]; exact hv')
@@ -526,7 +546,15 @@ theorem Inv.setUses {s : St} {v : Nat} {vs : ValueS} {us : List (Nat × Nat)} (h
       simp only [List.length_set] at *
       rw [List.getElem?_set_ne (by omega)] at hc'
       exact hI.cells j c' hj hc'
-  · exact hI.setNew hge (show CellOk _ _ _ _ (.val { vs with uses := us }) from hI.cells v (.val vs) hge hv)
+  · obtain ⟨a1, a2, a3, a4, a5, a6, a7, a8⟩ := hI.cells v (.val vs) hge hv
+    refine hI.setNew hge (show CellOk _ _ _ _ (.val { vs with uses := us }) from
+      ⟨a1, a2, a3, a4, a5, a6, a7, fun u hu => ?_⟩)
+    rcases Nat.lt_or_ge u.1 w0.length with hlt | hge'
+    · have hm : u ∈ us.filter (fun u => decide (u.1 < w0.length)) := List.mem_filter.mpr ⟨hu, by simpa using hlt⟩
+      rw [hus] at hm
+      have := a8 u (List.mem_filter.mp hm).1
+      omega
+    · exact hge'
 
 theorem addUse_good {s : St} (v n : Nat) (i : Nat) (hI : Inv w0 allow s) (hn : w0.length ≤ n)
     (hva : allow = false → w0.length ≤ v) :
@@ -566,7 +594,7 @@ theorem mkOutputs_good (n : Nat) (hn0 : w0.length ≤ n) :
     have hc : CellOk w0 w0.length (s2.w.length + 1) allow
         (.val { producer := some n, index := some i, props := pr, mstore := me }) :=
       ⟨trivial, trivial, In.mono hpr (by omega), In.mono hme (by omega), trivial,
-        ⟨hn0, by omega⟩, trivial⟩
+        ⟨hn0, by omega⟩, trivial, fun u hu => by cases hu⟩
     mbind (GoodAt.allocNew hI2 hc) with v s3 hI3 hl3 hv
     mbind (mkOutputs_good n hn0 k (i + 1) s3 hI3 (by omega)) with rest s4 hI4 hl4 hrest
     refine GoodAt.pure hI4 ?_
@@ -746,7 +774,7 @@ theorem cloneOutput_good (i o : Nat) {s : St} (hI : Inv w0 allow s) :
       (.val { name := os.name, doc := os.doc, index := some i, type := ty, shape := sh,
               const := os.const, props := pr, mstore := me }) :=
     ⟨OptIn.mono hty (by omega), OptIn.mono hsh (by omega), In.mono hpr (by omega),
-      In.mono hme (by omega), trivial, trivial, hconst⟩
+      In.mono hme (by omega), trivial, trivial, hconst, fun u hu => by cases hu⟩
   mbind (GoodAt.allocNew hI5 hc) with o' s6 hI6 hl6 ho'
   mbind (GoodAt.vmSet hI6 ho') with u s7 hI7 hl7 hq7
   mbind (GoodAt.pendDiscard o hI7) with u2 s8 hI8 hl8 hq8
@@ -784,33 +812,274 @@ theorem allocNode_good {s : St} {c : NodeS} (hI : Inv w0 allow s)
   mbind (GoodAt.createdAdd n' hI1 hn') with u s2 hI2 hl2 hq2
   exact GoodAt.pure hI2 (by rw [NewId, hq2]; exact hn')
 
+/-- what `mapInputs` (the node-input loop of `clone_node`, `_cloner.py` 171-193) answers -/
+def mapInputsPure (allow : Bool) (s : St) : List (Option Nat) → Except Err (List (Option Nat))
+  | [] => .ok []
+  | none :: rest => (mapInputsPure allow s rest).map (none :: ·)
+  | some v :: rest =>
+    match s.vm.lookup v with
+    | some v' => (mapInputsPure allow s rest).map (some v' :: ·)
+    | none =>
+      if allow then
+        if s.pend.contains v then .error (.raised "value defined by a later node of the graph being cloned")
+        else (mapInputsPure allow s rest).map (some v :: ·)
+      else .error (.raised "outer-scope value")
+
+theorem mapInputs_eq_pure (allow : Bool) (s : St) :
+    ∀ l, mapInputs allow l s = (mapInputsPure allow s l, s)
+  | [] => rfl
+  | none :: rest => by
+    have ih := mapInputs_eq_pure allow s rest
+    unfold mapInputs mapInputsPure
+    show M.bind (mapInputs allow rest) _ s = _
+    unfold M.bind
+    rw [ih]
+    cases mapInputsPure allow s rest <;> rfl
+  | some v :: rest => by
+    have ih := mapInputs_eq_pure allow s rest
+    unfold mapInputs mapInputsPure
+    show M.bind (vmGet v) _ s = _
+    unfold M.bind vmGet
+    simp only
+    cases hlk : s.vm.lookup v with
+    | some v' =>
+      simp only
+      show M.bind (mapInputs allow rest) _ s = _
+      unfold M.bind
+      rw [ih]
+      cases mapInputsPure allow s rest <;> rfl
+    | none =>
+      simp only
+      cases allow with
+      | false => rfl
+      | true =>
+        simp only [if_true]
+        show M.bind (pendHas v) _ s = _
+        unfold M.bind pendHas
+        simp only
+        cases hp : s.pend.contains v with
+        | true => rfl
+        | false =>
+          simp only [Bool.false_eq_true, if_false]
+          show M.bind (mapInputs true rest) _ s = _
+          unfold M.bind
+          rw [ih]
+          cases mapInputsPure true s rest <;> rfl
+
+
+theorem GoodAt.and_ok {m : M α} {s : St} {Q : α → St → Prop} {P : α → Prop}
+    (h : GoodAt w0 allow m s Q) (hp : ∀ a, (m s).1 = .ok a → P a) :
+    GoodAt w0 allow m s (fun a s1 => Q a s1 ∧ P a) :=
+  ⟨h.1, h.2.1, fun a ha => ⟨h.2.2 a ha, hp a ha⟩⟩
+
+/-- the node-input loop keeps the positions of the `None` inputs -/
+theorem mapInputsPure_shape (allow : Bool) (s : St) :
+    ∀ (l r : List (Option Nat)), mapInputsPure allow s l = .ok r →
+      r.map Option.isSome = l.map Option.isSome
+  | [], r, h => by simp [mapInputsPure] at h; subst h; rfl
+  | none :: rest, r, h => by
+    unfold mapInputsPure at h
+    cases h1 : mapInputsPure allow s rest with
+    | error e => rw [h1] at h; cases h
+    | ok r1 =>
+      rw [h1] at h
+      simp [Except.map] at h
+      subst h
+      simp [mapInputsPure_shape allow s rest r1 h1]
+  | some v :: rest, r, h => by
+    unfold mapInputsPure at h
+    have key : ∀ (x : Nat), (mapInputsPure allow s rest).map (some x :: ·) = .ok r →
+        r.map Option.isSome = (some v :: rest).map Option.isSome := by
+      intro x hx
+      cases h1 : mapInputsPure allow s rest with
+      | error e => rw [h1] at hx; cases hx
+      | ok r1 =>
+        rw [h1] at hx
+        simp [Except.map] at hx
+        subst hx
+        simp [mapInputsPure_shape allow s rest r1 h1]
+    split at h
+    · exact key _ h
+    · split at h
+      · split at h
+        · cases h
+        · exact key _ h
+      · cases h
+
+theorem mapInputs_shape {allow : Bool} {s : St} {l r : List (Option Nat)}
+    (h : (mapInputs allow l s).1 = .ok r) : r.map Option.isSome = l.map Option.isSome := by
+  rw [mapInputs_eq_pure] at h
+  exact mapInputsPure_shape allow s l r h
+
+theorem cloneOutputs_length :
+    ∀ (os : List Nat) (i : Nat) (s : St) (r : List Nat), (cloneOutputs i os s).1 = .ok r →
+      r.length = os.length
+  | [], i, s, r, h => by
+    simp [cloneOutputs, pure, M.pure] at h
+    subst h; rfl
+  | o :: os, i, s, r, h => by
+    unfold cloneOutputs at h
+    change (M.bind (cloneOutput i o) _ s).1 = _ at h
+    unfold M.bind at h
+    rcases h1 : cloneOutput i o s with ⟨r1, s1⟩
+    rw [h1] at h
+    cases r1 with
+    | error e => cases h
+    | ok o' =>
+      simp only at h
+      change (M.bind (cloneOutputs (i + 1) os) _ s1).1 = _ at h
+      unfold M.bind at h
+      rcases h2 : cloneOutputs (i + 1) os s1 with ⟨r2, s2⟩
+      rw [h2] at h
+      cases r2 with
+      | error e => cases h
+      | ok rest =>
+        simp only [pure, M.pure] at h
+        cases h
+        have := cloneOutputs_length os (i + 1) s1 rest (by rw [h2])
+        simp [this]
+
+theorem lookup_isSome_of_mem {v x : Nat} : ∀ {l : List (Nat × Nat)}, (v, x) ∈ l → (l.lookup v).isSome
+  | [], h => by cases h
+  | (a, b) :: ps, h => by
+    rw [List.lookup_cons]
+    by_cases hva : v = a
+    · subst hva; simp
+    · have : (v == a) = false := by simpa using hva
+      rw [this]
+      rcases List.mem_cons.mp h with h1 | h1
+      · cases h1; exact absurd rfl hva
+      · exact lookup_isSome_of_mem h1
+
+/-- remapping local sharding specs through the correspondence of the node's own inputs and outputs
+    yields specs that are local to the new node -/
+theorem devLocal_remap {ns : NodeS} {ins : List (Option Nat)} {outs : List Nat}
+    (hloc : DevLocal ns) (hlen : outs.length = ns.outputs.length)
+    (hpos : ins.map Option.isSome = ns.inputs.map Option.isSome) :
+    ∀ c ∈ remapDev (ioMap ns.inputs ins ns.outputs outs) ns.dev, ∀ sp ∈ c.specs, ∀ v,
+      sp.value = some v → some v ∈ ins ∨ v ∈ outs := by
+  intro c hc sp hsp v hv
+  unfold remapDev at hc
+  obtain ⟨c0, hc0, rfl⟩ := List.mem_map.mp hc
+  simp only at hsp
+  obtain ⟨sp0, hsp0, rfl⟩ := List.mem_map.mp hsp
+  have hmem : ∀ a b, (a, b) ∈ ioMap ns.inputs ins ns.outputs outs → some b ∈ ins ∨ b ∈ outs := by
+    intro a b hab
+    unfold ioMap at hab
+    rcases List.mem_append.mp hab with h1 | h1
+    · exact .inr (List.of_mem_zip h1).2
+    · obtain ⟨q, hq, hqe⟩ := List.mem_filterMap.mp h1
+      rcases q with ⟨qa, qb⟩
+      cases qa with
+      | none => simp at hqe
+      | some a' =>
+        cases qb with
+        | none => simp at hqe
+        | some b' =>
+          simp at hqe
+          obtain ⟨_, rfl⟩ := hqe
+          exact .inl (List.of_mem_zip hq).2
+  unfold remapSpec at hv
+  split at hv
+  · next hnone => rw [hnone] at hv; cases hv
+  · next v0 hv0 =>
+    split at hv
+    · next hlk =>
+      -- the lookup cannot fail for a local spec
+      exfalso
+      have hl := hloc c0 hc0 sp0 hsp0 v0 hv0
+      have : (List.lookup v0 (ioMap ns.inputs ins ns.outputs outs)).isSome := by
+        rcases hl with h1 | h1
+        · -- an input at some position, whose image is not `none`
+          obtain ⟨i, hi, hget⟩ := List.getElem_of_mem h1
+          have hilen : i < ins.length := by
+            have := congrArg List.length hpos
+            simp at this
+            omega
+          have hsome : (ins[i]).isSome := by
+            have h1' : (ins.map Option.isSome)[i]'(by simpa using hilen) = (ns.inputs.map Option.isSome)[i]'(by simpa using hi) := by
+              simp only [hpos]
+            simp only [List.getElem_map] at h1'
+            rw [h1', hget]; rfl
+          obtain ⟨x, hx⟩ := Option.isSome_iff_exists.mp hsome
+          apply lookup_isSome_of_mem (x := x)
+          unfold ioMap
+          apply List.mem_append_right
+          apply List.mem_filterMap.mpr
+          refine ⟨(some v0, some x), ?_, rfl⟩
+          rw [List.mem_iff_getElem]
+          refine ⟨i, by simp; omega, ?_⟩
+          simp [hget, hx]
+        · obtain ⟨i, hi, hget⟩ := List.getElem_of_mem h1
+          apply lookup_isSome_of_mem (x := outs[i]'(by omega))
+          unfold ioMap
+          apply List.mem_append_left
+          rw [List.mem_iff_getElem]
+          refine ⟨i, by simp; omega, ?_⟩
+          simp [hget]
+      rw [hlk] at this
+      cases this
+    · next v' hlk =>
+      simp only at hv
+      cases hv
+      exact hmem v0 _ (mem_of_lookup hlk)
+
+theorem devLocal_of_read {s : St} {n : Nat} {ns : NodeS} (hI : Inv w0 allow s)
+    (hd : devLocalW w0 = true) (h : s.w[n]? = some (.node ns)) : DevLocal ns := by
+  rcases Nat.lt_or_ge n w0.length with hlt | hge
+  · obtain ⟨c, h1, h2⟩ := hI.old n _ (List.getElem?_eq_getElem hlt)
+    rw [h] at h1
+    cases h1
+    have := h2.1
+    cases hc0 : w0[n] with
+    | node n0 =>
+      rw [hc0] at this
+      simp [Cell.eraseUses] at this
+      subst this
+      exact devLocalW_spec hd (by rw [List.getElem?_eq_getElem hlt, hc0])
+    | val _ => rw [hc0] at this; simp [Cell.eraseUses] at this
+    | graph _ => rw [hc0] at this; simp [Cell.eraseUses] at this
+    | type _ => rw [hc0] at this; simp [Cell.eraseUses] at this
+    | shape _ => rw [hc0] at this; simp [Cell.eraseUses] at this
+    | dict _ => rw [hc0] at this; simp [Cell.eraseUses] at this
+    | attr _ => rw [hc0] at this; simp [Cell.eraseUses] at this
+    | func _ => rw [hc0] at this; simp [Cell.eraseUses] at this
+    | model _ => rw [hc0] at this; simp [Cell.eraseUses] at this
+    | tensor _ => rw [hc0] at this; simp [Cell.eraseUses] at this
+  · obtain ⟨_, _, _, _, _, _, f2⟩ := hI.cells n _ hge h
+    exact f2 hd
+
 theorem cloneNode_good {rec : Nat → M Nat}
     (hrec : ∀ g s, Inv w0 allow s → GoodAt w0 allow (rec g) s (NewId w0))
     (n : Nat) {s : St} (hI : Inv w0 allow s) :
     GoodAt w0 allow (cloneNode allow rec n) s (NewId w0) := by
   unfold cloneNode
   mbind (GoodAt.readNode hI) with ns s1 hI1 hl1 hq1
-  mbind (mapInputs_good ns.inputs s1 hI1) with ins s2 hI2 hl2 hins
-  obtain ⟨rfl, hins⟩ := hins
+  mbind ((mapInputs_good ns.inputs s1 hI1).and_ok (fun a h => mapInputs_shape h)) with ins s2 hI2 hl2 hins
+  obtain ⟨⟨rfl, hins⟩, hshape⟩ := hins
   mbind (mapM'_good (AttrOk.stable) ns.attrs s2 hI2
     (fun ka _ s3 hI3 _ => cloneAttr_good hrec ka.1 ka.2 hI3)) with attrs s3 hI3 hl3 hattrs
   mbind (copyProps_good ns.props hI3) with pr s4 hI4 hl4 hpr
   mbind (copyMeta_good ns.mstore hI4) with me s5 hI5 hl5 hme
-  mbind (cloneOutputs_good ns.outputs 0 s5 hI5) with outs s6 hI6 hl6 houts
-  mbind (GoodAt.getVm hI6) with vm s7 hI7 hl7 hq7
-  obtain ⟨rfl, _⟩ := hq7
-  have hc : CellOk w0 w0.length (s7.w.length + 1) allow
+  mbind ((cloneOutputs_good ns.outputs 0 s5 hI5).and_ok (fun a h => cloneOutputs_length _ _ _ a h))
+    with outs s6 hI6 hl6 houts
+  obtain ⟨houts, hlen⟩ := houts
+  have hI7 := hI6
+  have hc : CellOk w0 w0.length (s6.w.length + 1) allow
       (.node { name := ns.name, doc := ns.doc, domain := ns.domain, opType := ns.opType,
                overload := ns.overload, version := ns.version, inputs := ins, outputs := outs,
-               attrs := dictOf attrs, dev := remapDev vm ns.dev, props := pr, mstore := me }) := by
+               attrs := dictOf attrs, dev := remapDev (ioMap ns.inputs ins ns.outputs outs) ns.dev,
+               props := pr, mstore := me }) := by
     refine ⟨fun v hv => In.mono (houts v hv) (by omega), In.mono hpr (by omega),
-      In.mono hme (by omega), trivial, ?_, ?_⟩
+      In.mono hme (by omega), trivial, ?_, ?_, ?_⟩
     · intro ka hka
       rcases hattrs ka (mem_dictOf hka) with h | h
       · exact .inl (In.mono h (by omega))
       · exact .inr h
     · intro ha v hv
       exact In.mono (hins ha v hv) (by omega)
+    · intro hd
+      exact devLocal_remap (devLocal_of_read hI (by exact hd) hq1.2) hlen hshape
   mbind (allocNode_good hI7 hc) with n' s8 hI8 hl8 hn'
   mbind (forM'_good outs s8 hI8 (fun v hv s9 hI9 hl9 =>
     setProducer_good n' v hI9 (In.mono hn' hl9) (houts v hv).1)) with u s9 hI9 hl9 hq9
@@ -1019,15 +1288,29 @@ theorem detachNode_good {s : St} (n : Nat) (hI : Inv w0 allow s) (hn : w0.length
   unfold detachNode
   mbind (GoodAt.readNode hI) with ns s1 hI1 hl1 hq1
   obtain ⟨rfl, hns⟩ := hq1
-  obtain ⟨_, _, _, _, _, hin⟩ := hI1.cells n _ hn hns
+  obtain ⟨_, _, _, _, _, hin, _⟩ := hI1.cells n _ hn hns
   mbind (unUses_good n hn ns.inputs s1 hI1 (fun ha v hv => (hin ha v hv).1)) with u s2 hI2 hl2 hq2
   mbind (GoodAt.readNode hI2) with ns2 s3 hI3 hl3 hq3
   obtain ⟨rfl, hns2⟩ := hq3
-  obtain ⟨a, b, c, d, e, _⟩ := hI3.cells n _ hn hns2
+  obtain ⟨a, b, c, d, e, _, f2⟩ := hI3.cells n _ hn hns2
   refine (GoodAt.setNew hI3 hn (c := .node { ns2 with inputs := ns2.inputs.map (fun _ => none), dev := _ })
-    ⟨a, b, c, d, e, ?_⟩).mono (fun _ _ _ _ _ => trivial)
-  intro _ v hv
-  simp at hv
+    ⟨a, b, c, d, e, ?_, ?_⟩).mono (fun _ _ _ _ _ => trivial)
+  · intro _ v hv
+    simp at hv
+  · intro hd c' hc' sp hsp v hv
+    right
+    simp only [List.mem_map] at hc'
+    obtain ⟨c0, hc0, rfl⟩ := hc'
+    simp only [List.mem_filter] at hsp
+    obtain ⟨hsp0, hkeep⟩ := hsp
+    rw [hv] at hkeep
+    have hloc := f2 hd c0 hc0 sp hsp0 v hv
+    rcases hloc with h1 | h1
+    · have : ns2.inputs.contains (some v) = true := by simpa using h1
+      rcases (by simpa using hkeep : ¬ some v ∈ ns2.inputs ∨ v ∈ ns2.outputs) with h2 | h2
+      · exact absurd h1 h2
+      · exact h2
+    · exact h1
 
 /-- `try ... except: detach; raise` keeps the invariant on both paths -/
 theorem guarded_good {body : M Nat} {Q : Nat → St → Prop} {s : St} (hI : Inv w0 allow s)
